@@ -31,7 +31,9 @@ Mut2(s) == IF Muts = 1 THEN Mutations(s) ELSE UNION {Mutations(m) : m \in Mutati
 Comps == {"a", "b", "blobs", "uploads", "operations", "Blobs", "x y"}
 AllFns == DOMAIN FnLen
 DigestRecs == [inst : {<<>>, <<"a">>, <<"a", "b">>, <<"a", "b", "c-d">>}, fn : AllFns, hash : {"p", "q"}, size : {0, 5}]
-Elems == {"d1", "d2", "d3", "d4"}
+\* d1/d2: one object under instance names "" and "a"; d3/d4: the empty blob under "" and "a"; d5: another object under "b".
+\* In a set they are ordered d1 < d2 < d3 < d4 < d5, so that instance names interleave.
+Elems == {"d1", "d2", "d3", "d4", "d5"}
 
 Init ==
     CASE Part = "read" -> \E v \in ValidRead : \E m \in Mut2(v) : case = [kind |-> "read", toks |-> m]
@@ -41,8 +43,8 @@ Init ==
       [] Part = "newdigest" -> \E f \in AllFns \cup {"UNKNOWN"}, h \in DOMAIN HashLen, s \in {-1, 0, 5} : case = [fn |-> f, hash |-> h, size |-> s]
       [] Part = "roundtrip" -> \E d \in DigestRecs : case = d
       [] Part = "keys" -> \E a \in DigestRecs, b \in DigestRecs : a.inst \in {<<>>, <<"a">>} /\ b.inst \in {<<>>, <<"a">>} /\ case = [a |-> a, b |-> b]
-      [] Part = "sets" -> \E A \in SUBSET Elems, B \in SUBSET Elems, C \in SUBSET Elems : \E n \in 0..3 : \E ad \in [1..n -> Elems] :
-                                 case = [sets |-> <<A, B, C>>, adds |-> ad]
+      [] Part = "sets" -> \/ \E A \in SUBSET Elems, B \in SUBSET Elems, C \in {{}, {"d5"}, {"d2", "d3"}, Elems} : case = [sets |-> <<A, B, C>>, adds |-> <<>>]
+                          \/ \E n \in 0..3 : \E ad \in [1..n -> Elems] : case = [sets |-> <<{}, {}, {}>>, adds |-> ad]
 Next == UNCHANGED case
 \* sanity of the generator and the grammar: every unmutated skeleton parses, strictly
 Sane == /\ (Part = "read" => \A v \in ValidRead : ParseRead(v).ok)
